@@ -173,3 +173,104 @@ def cursor_execute_calls(cfg: CFG):
                         txt.endswith('_cursor') or txt.endswith('.cursor'):
                     out.append((n, c))
     return out
+
+
+# ---------------------------------------------------------------------------
+# wrapper summaries: a function together with the private same-class /
+# same-module helpers it calls (inlining bound 2).  "Extract method" is the
+# most common behaviour-preserving refactoring; rules that look for a
+# construct inside an anchored function look inside its unit.
+# ---------------------------------------------------------------------------
+
+def unit(ctx, f: Func, depth: int = 2) -> List[Func]:
+    out = [f]
+    seen = {f.fq}
+    frontier = [(f, 0)]
+    while frontier:
+        cur, d = frontier.pop(0)
+        if d >= depth:
+            continue
+        for c in walk_no_nested(cur.node, include_lambda=True):
+            if not isinstance(c, ast.Call):
+                continue
+            name = call_name(c)
+            if not name or not name.startswith('_') or name.startswith('__'):
+                continue
+            recv_ok = isinstance(c.func, ast.Name) or (
+                isinstance(c.func, ast.Attribute) and
+                isinstance(c.func.value, ast.Name) and
+                c.func.value.id in ('self', 'cls'))
+            if not recv_ok:
+                continue
+            targets, prec = ctx.program.resolve_call(cur, c)
+            for t in targets:
+                if t.fq in seen or t.module is not f.module:
+                    continue
+                if f.cls is not None and t.cls is not None and \
+                        not (f.cls.is_subclass_of(t.cls) or
+                             t.cls.is_subclass_of(f.cls)):
+                    continue
+                seen.add(t.fq)
+                out.append(t)
+                frontier.append((t, d + 1))
+    return out
+
+
+def unit_walk(ctx, f: Func, depth: int = 2):
+    """(func, ast node) over the unit of f."""
+    for g in unit(ctx, f, depth):
+        for n in walk_no_nested(g.node, include_lambda=True):
+            yield g, n
+
+
+def helper_contains(ctx, f: Func, call: ast.Call, pred, depth: int = 2) -> bool:
+    """Does the private helper invoked by *call* (transitively, bound 2)
+    contain an ast node satisfying pred?"""
+    name = call_name(call)
+    if not name or not name.startswith('_') or name.startswith('__'):
+        return False
+    targets, prec = ctx.program.resolve_call(f, call)
+    for t in targets:
+        if t.module is not f.module:
+            continue
+        for g in unit(ctx, t, depth - 1):
+            for n in walk_no_nested(g.node, include_lambda=True):
+                if pred(n):
+                    return True
+    return False
+
+
+def nodes_emitting(ctx, f: Func, cfg: CFG, pred) -> List[Node]:
+    """CFG nodes of f that evaluate an ast node satisfying pred, directly or
+    inside a private helper they call."""
+    out = []
+    for n in cfg.nodes:
+        hit = False
+        for a in n.walk():
+            if pred(a):
+                hit = True
+                break
+            if isinstance(a, ast.Call) and helper_contains(ctx, f, a, pred):
+                hit = True
+                break
+        if hit:
+            out.append(n)
+    return out
+
+
+def param_argument(ctx, caller: Func, helper: Func, param: str):
+    """The argument expressions passed for *param* at caller's call sites of
+    helper."""
+    out = []
+    params = helper.params
+    if helper.cls is not None and params and params[0] in ('self', 'cls'):
+        params = params[1:]
+    for c in walk_no_nested(caller.node, include_lambda=True):
+        if isinstance(c, ast.Call) and call_name(c) == helper.name:
+            v = kwarg(c, param)
+            if v is None and param in params and \
+                    params.index(param) < len(c.args):
+                v = c.args[params.index(param)]
+            if v is not None:
+                out.append(v)
+    return out
